@@ -125,8 +125,9 @@ def plan_tx(tier, seed, props):
 
 
 class Stage:
-    def __init__(self, driver, module, planfn, props=None, bins=False, table="plain", yaml_every=8, extra=None, followup=None):
+    def __init__(self, driver, module, planfn, props=None, bins=False, table="plain", yaml_every=8, extra=None, followup=None, scale=1.0):
         self.driver, self.module, self.planfn = driver, module, planfn
+        self.scale = scale        # < 1: a content stage - the same plan, sampled, under a table of hostile strings / keys / numbers
         self.props, self.bins, self.table, self.yaml_every, self.extra = props, bins, table, yaml_every, extra or {}
         self.followup = followup
 
@@ -249,8 +250,15 @@ CHUNKS = {("C01", "dp"): 8, ("C05", "dp"): 8, ("C06", "dp"): 4, ("C07", "dp"): 8
 
 THOROUGH_EXTRA = {p: ["MCPatch-list", "MCPatch-list4", "MCPatch-nest", "MCPatch-obj", "MCPatch-keyed"] for p in ("C01", "C03", "C05", "C06", "C07", "C08")}
 
+def content(driver, module, planfn, scale=0.12, **kw):
+    """content stages: the property's own plan, sampled, under tables/content1.json (empty / escaped / multi-byte / control
+    strings and keys, negative and fractional numbers) and tables/content2.json (300-character strings, 200-character keys,
+    keys that look like indices, 1e21, 2^53-range integers, the smallest and the largest float)"""
+    return [Stage(driver, module, planfn, table="content1", scale=scale, **kw), Stage(driver, module, planfn, table="content2", scale=scale, **kw)]
+
+
 CHECKS = {
-    "C01": dict(stages=[Stage("dp", "TraceDP", plan_dp)], design=["ListDiff", "MCPatch-list", "MCPatch-obj"],
+    "C01": dict(stages=[Stage("dp", "TraceDP", plan_dp)] + content("dp", "TraceDP", plan_dp), design=["ListDiff", "MCPatch-list", "MCPatch-obj"],
                 rule="session = one (a, b, options) triple: Diff as returned, Patch of every prefix on fresh documents, "
                      "Equals; non-trivial = the diff has at least one hunk"),
     "C02": dict(stages=[Stage("tx", "TraceText", plan_tx, table="hostile")], design=["MCText"],
@@ -262,9 +270,9 @@ CHECKS = {
     "C10": dict(stages=[Stage("jp", "TraceJP", plan_jp, table="pointer", followup=followup_vary)], design=["MCJsonPatch", "MCReadPatch"],
                 rule="session = one patch document (jd's own output, or a variation generated by the specification: shifted indices, "
                      "dropped hunks, dropped context tests, changed test/remove values, '-' appends) read by ReadPatchString and applied to targets"),
-    "C11": dict(stages=[Stage("mg", "TraceMerge", plan_mg)], design=["MCMerge"],
+    "C11": dict(stages=[Stage("mg", "TraceMerge", plan_mg)] + content("mg", "TraceMerge", plan_mg), design=["MCMerge"],
                 rule="session = one null-free (a,b), a != b, under MERGE / SET+MERGE / MULTISET+MERGE: RenderMerge text evaluated by the RFC 7386 function"),
-    "C12": dict(stages=[Stage("mp", "TraceMerge", plan_mp)], design=["MCMerge"],
+    "C12": dict(stages=[Stage("mp", "TraceMerge", plan_mp)] + content("mp", "TraceMerge", plan_mp, scale=0.5), design=["MCMerge"],
                 rule="session = one merge patch document read by ReadMergeString and applied to every target of the family"),
     "C13": dict(stages=[Stage("cr", "TraceCrash", plan_cr, extra={"tier": "TIER"}),
                         Stage("proc", "TraceCli", lambda t, s, p: [], bins=True, extra={"frac": "FRAC"}),
@@ -283,20 +291,20 @@ CHECKS = {
                 rule="case = one document of the model-generated universe under the yaml-hostile string table (40 strings that look like "
                      "numbers, booleans, null or YAML syntax, in root / member / value / key position): three library legs, yaml-born vs "
                      "json-born equality, and two CLI protocols; non-trivial = the document contains a hostile string or a container"),
-    "C17": dict(stages=[Stage("v1", "TraceV1", plan_v1, yaml_every=0)], design=["MCV1"],
+    "C17": dict(stages=[Stage("v1", "TraceV1", plan_v1, yaml_every=0)] + content("v1", "TraceV1", plan_v1, yaml_every=0), design=["MCV1"],
                 rule="session = one (a,b,metadata) through package lib: Diff, Patch of every prefix, Equals, Render + ReadDiffString + Patch"),
     "C18": dict(stages=[Stage("v1", "TraceV1", plan_v1, yaml_every=0, table="pointer")], design=["MCV1", "MCMerge"],
                 rule="session = one list-mode or merge-mode (a,b) through package lib: RenderPatch evaluated by the RFC 6902 machine, RenderMerge by "
                      "the RFC 7386 function, and both read back by the v1 readers and applied"),
-    "C03": dict(stages=[Stage("pt", "TraceDP", plan_pt)], design=["MCPatch-list"],
+    "C03": dict(stages=[Stage("pt", "TraceDP", plan_pt)] + content("pt", "TraceDP", plan_pt), design=["MCPatch-list"],
                 rule="session = one list-mode diff with its sub-sequences applied to a, b and perturbed targets; "
                      "non-trivial = at least one target rejected and one accepted"),
-    "C04": dict(stages=[Stage("eq", "TraceEq", plan_eq)], design=["MCEq"],
+    "C04": dict(stages=[Stage("eq", "TraceEq", plan_eq)] + content("eq", "TraceEq", plan_eq), design=["MCEq"],
                 rule="session = one (a, b, options) triple: Equals(a,b), Equals(b,a), Equals(a,a) against the canonical-form oracle"),
-    "C05": dict(stages=[Stage("dp", "TraceDP", plan_dp), Stage("proc", "TraceCli", lambda t, s, p: [], bins=True, extra={"frac": "FRAC"})], design=["MCPatch-obj"], rule="session = (a,b,options): len(Diff)=0 iff Equals"),
-    "C06": dict(stages=[Stage("dp", "TraceDP", plan_dp)], design=["ListDiff", "MCPatch-list", "MCPatch-nest"], rule="session = list-mode (a,b): hunks vs independent LCS"),
-    "C07": dict(stages=[Stage("dp", "TraceDP", plan_dp)], design=["ListDiff", "MCPatch-nest", "MCPatch-obj"], rule="session = (a,b,options): per-hunk and leave-one-out"),
-    "C08": dict(stages=[Stage("pt", "TraceDP", plan_pt)], design=["MCPatch-keyed"], rule="session = set/multiset/setkeys diff on permuted and perturbed targets"),
+    "C05": dict(stages=[Stage("dp", "TraceDP", plan_dp)] + content("dp", "TraceDP", plan_dp) + [Stage("proc", "TraceCli", lambda t, s, p: [], bins=True, extra={"frac": "FRAC"})], design=["MCPatch-obj"], rule="session = (a,b,options): len(Diff)=0 iff Equals"),
+    "C06": dict(stages=[Stage("dp", "TraceDP", plan_dp)] + content("dp", "TraceDP", plan_dp), design=["ListDiff", "MCPatch-list", "MCPatch-nest"], rule="session = list-mode (a,b): hunks vs independent LCS"),
+    "C07": dict(stages=[Stage("dp", "TraceDP", plan_dp)] + content("dp", "TraceDP", plan_dp), design=["ListDiff", "MCPatch-nest", "MCPatch-obj"], rule="session = (a,b,options): per-hunk and leave-one-out"),
+    "C08": dict(stages=[Stage("pt", "TraceDP", plan_pt)] + content("pt", "TraceDP", plan_pt), design=["MCPatch-keyed"], rule="session = set/multiset/setkeys diff on permuted and perturbed targets"),
 }
 
 
@@ -374,8 +382,12 @@ def run_check(prop, tier, seed, keep=False, only=None):
             props_judged = st.props or [prop]
             nchunks = CHUNKS.get((prop, st.driver), 1) if tier == "thorough" else 1
             for ch in range(nchunks):
+              items = st.planfn(tier, seed, props_judged)
+              if st.scale != 1.0:
+                  # content stage: no Precision items (the number table is not arithmetic), everything sampled
+                  items = [dict(it, frac=it.get("frac", 1.0) * st.scale) for it in items if not it["opts"].get("eps")]
               plan = dict(driver=st.driver, seed=seed, table=table_path(st.table), yaml_every=st.yaml_every,
-                        items=st.planfn(tier, seed, props_judged), bins=bins or {},
+                        items=items, bins=bins or {},
                         extra={k: (tier if v == "TIER" else (0.12 if tier == "quick" else 1.0) if v == "FRAC" else (0.04 if tier == "quick" else 0.3) if v == "FRAC2" else (300 if tier == "quick" else 6000) if v == "NCLI" else ("histories_2" if tier == "quick" else "histories_3") if v == "HIST" else v)
                                for k, v in st.extra.items()})
               if nchunks > 1:
